@@ -30,7 +30,9 @@ class Gen:
     def __init__(self, rnd, genesis_ts, genesis_target, period, timespan, **opts):
         self.r = rnd
         self.period, self.timespan = period, timespan
-        g = Lbl("g", None, 0, genesis_ts, genesis_target, {("g.0", 0): (1_000_000_000, None)}, ("g",), ["g.0"], 0)
+        self.base_h = opts.pop("base_height", 0)
+        self.base_ts_at = opts.pop("base_ts_at", None)
+        g = Lbl("g", None, self.base_h, genesis_ts, genesis_target, {("g.0", 0): (1_000_000_000, None)}, ("g",), ["g.0"], 0)
         self.L = {"g": g}
         self.order = ["g"]
         self.txdef = {}            # tx name -> op (for copies)
@@ -60,20 +62,23 @@ class Gen:
             return self.r.choice(tips)
         return self.L[self.r.choice(self.order)]
 
+    def start_ts(self, parent, sh):
+        if sh >= self.base_h:
+            return self.L[parent.chain[sh - self.base_h]].ts
+        return self.base_ts_at(sh)
+
     def target_at(self, parent, ts):
         h = parent.height + 1
         if h % self.period == 0:
-            start = self.L[parent.chain[h - self.period]]
-            return min(parent.target * (ts - start.ts) // self.timespan, TWO256 - 1)
+            return min(parent.target * (ts - self.start_ts(parent, h - self.period)) // self.timespan, TWO256 - 1)
         return parent.target
 
     def choose_dt(self, parent, prefer=None):
         dt = prefer if prefer is not None else self.r.choice(DTS)
         h = parent.height + 1
         if h % self.period == 0:
-            start = self.L[parent.chain[h - self.period]]
             need = -(-TARGET_FLOOR * self.timespan // parent.target)      # elapsed needed to stay above the floor
-            el = parent.ts + dt - start.ts
+            el = parent.ts + dt - self.start_ts(parent, h - self.period)
             if el < need:
                 dt += need - el
         return dt
@@ -401,8 +406,9 @@ class Gen:
                 if tag == "unretargeted" and self.target_at(p, p.ts + o["dt"]) == p.target:
                     return None
                 if tag == "retargeted_anyway":
-                    start = self.L[p.chain[max(0, h - self.period)]]
-                    alt = min(p.target * max(1, p.ts + o["dt"] - start.ts) // self.timespan, TWO256 - 1)
+                    if h - self.period < 0:
+                        return None
+                    alt = min(p.target * max(1, p.ts + o["dt"] - self.start_ts(p, h - self.period)) // self.timespan, TWO256 - 1)
                     if alt == p.target or alt < TARGET_FLOOR:
                         return None
             elif tag == "height+1":
